@@ -185,6 +185,16 @@ class ShuffleReduce(Expr):
         if not isinstance(split_by, (list, tuple)):
             split_by = [split_by]
         split_by_index = bool(set(split_by) - set(columns))
+        if (
+            split_by_index
+            and self.shuffle_by_index
+            and not self.sort
+            and set(split_by) & set(columns)
+        ):
+            # groupby(["a", "b"]).b: the keys are the index of the chunks, but
+            # reset_index can't insert a key next to the selected column of
+            # the same name. Hash the index itself instead.
+            split_by_index = False
 
         # Make sure we have dataframe-like data to shuffle
         if split_by_index:
